@@ -1,0 +1,52 @@
+//! Verification hooks (cargo feature `verif_hooks`, off by default).
+//!
+//! Makes the two size thresholds that decide internal batching (`MAX_CACHE_SIZE`) and the
+//! mmap-vs-file-IO back-end (`MMAP_CROSSOVER_BYTES`) adjustable at run time, so a harness can
+//! exercise multi-batch computations and the IO sources with small data. With the feature off the
+//! constants are plain `usize` values as before.
+
+use std::sync::atomic::{AtomicUsize, Ordering};
+
+static CACHE: AtomicUsize = AtomicUsize::new(1024 * 1024 * 1024);
+static CROSSOVER: AtomicUsize = AtomicUsize::new(1024 * 1024 * 1024);
+
+pub fn set_max_cache_size(bytes: usize) {
+    CACHE.store(bytes, Ordering::SeqCst);
+}
+pub fn set_mmap_crossover_bytes(bytes: usize) {
+    CROSSOVER.store(bytes, Ordering::SeqCst);
+}
+
+/// Stand-in for a `usize` constant whose value is read from an atomic.
+#[derive(Clone, Copy, Debug)]
+pub struct Tunable(pub(crate) u8);
+
+impl Tunable {
+    #[inline]
+    pub fn get(self) -> usize {
+        if self.0 == 0 { CACHE.load(Ordering::Relaxed) } else { CROSSOVER.load(Ordering::Relaxed) }
+    }
+    #[inline]
+    pub fn div_ceil(self, rhs: usize) -> usize {
+        self.get().div_ceil(rhs)
+    }
+}
+impl PartialEq<Tunable> for usize {
+    fn eq(&self, o: &Tunable) -> bool {
+        *self == o.get()
+    }
+}
+impl PartialOrd<Tunable> for usize {
+    fn partial_cmp(&self, o: &Tunable) -> Option<std::cmp::Ordering> {
+        self.partial_cmp(&o.get())
+    }
+}
+impl std::ops::Div<usize> for Tunable {
+    type Output = usize;
+    fn div(self, rhs: usize) -> usize {
+        self.get() / rhs
+    }
+}
+
+pub const MAX_CACHE_SIZE: Tunable = Tunable(0);
+pub const MMAP_CROSSOVER_BYTES: Tunable = Tunable(1);
